@@ -5,12 +5,10 @@ open IrVerif.Passes
 #print axioms C05_cse
 #print axioms C05_rm_init_inputs
 #print axioms C05_add_init_inputs
-#print axioms C05_clear_meta
-#print axioms C05_name_fix
 #print axioms C05_lift_const
 #print axioms C05_dedup
 #print axioms C05_output_fix
 #print axioms C05_compose
 #print axioms C05_lift_sub_inits
 #print axioms C05_toposort
-#print axioms C05_toposort_sorted
+#print axioms C05_cse_skips
